@@ -5,6 +5,7 @@ package main
 
 import (
 	"fmt"
+	"go/ast"
 	"go/types"
 )
 
@@ -148,6 +149,12 @@ func (x *Exec) Load(fr *Frame, st *State, p *Ptr) *Term {
 func (x *Exec) Store(fr *Frame, st *State, p *Ptr, nv *Term) {
 	if p.Cast != nil {
 		unsupportedf("store through reinterpreted pointer %s", p)
+	}
+	if p.Local == nil && fr != nil && !fr.pure {
+		// heap-wide type invariants are re-established at every heap store
+		if inv := x.typeInvTerm(st, nv, p.targetType()); inv != nil {
+			x.oblige(st, "typeinv", typeKey(p.targetType())+" stored to heap", x.implicitTags(fr, "typeinv"), inv, x.curPos)
+		}
 	}
 	h := st.heap
 	switch {
@@ -293,8 +300,16 @@ func (x *Exec) assumeValid(st *State, v *Term, t types.Type, depth int) {
 		return
 	}
 	w := x.w
+	if depth == 0 || true {
+		if inv := x.typeInvTerm(st, v, t); inv != nil {
+			st.assume(inv)
+		}
+	}
 	switch u := t.Underlying().(type) {
 	case *types.Basic:
+		if u.Kind() == types.UnsafePointer {
+			st.assume(And(App("<=", SBool, IntLit(0, SInt), v), App("<", SBool, v, st.heap.alloc)))
+		}
 		if u.Info()&types.IsInteger != 0 && w.Mode == "int" {
 			switch u.Kind() {
 			case types.Uint, types.Uint64, types.Uintptr:
@@ -346,7 +361,7 @@ func needsValidity(t types.Type, depth int) bool {
 	}
 	switch u := t.Underlying().(type) {
 	case *types.Basic:
-		return u.Info()&types.IsUnsigned != 0 || u.Kind() == types.Int32
+		return u.Info()&types.IsUnsigned != 0 || u.Kind() == types.Int32 || u.Kind() == types.UnsafePointer
 	case *types.Pointer, *types.Map, *types.Slice:
 		return true
 	case *types.Interface:
@@ -377,7 +392,32 @@ func (x *Exec) freshOfType(st *State, prefix string, t types.Type) *SV {
 	}
 	v := x.w.Fresh(prefix, x.w.SortOf(t))
 	if needsValidity(t, 0) {
+		// inside the package that declares a type invariant, fresh inputs/results are
+		// not assumed valid: the contracts there state validity explicitly
+		if x.unit != nil && x.unit.Con != nil {
+			if ps := x.eng.specs[x.unit.Con.Pkg]; ps != nil && ps.TypeInvs != nil {
+				x.noTypeInv = true
+			}
+		}
 		x.assumeValid(st, v, t, 0)
+		x.noTypeInv = false
 	}
 	return TV(v)
+}
+
+// typeInvTerm evaluates the declared type invariant of t (if any) on v.
+// The invariant of a type is not assumed inside the package that declares it
+// for values that do not come from the heap (those contracts state it explicitly).
+func (x *Exec) typeInvTerm(st *State, v *Term, t types.Type) *Term {
+	decl, info, _ := x.eng.typeInvFor(t)
+	if decl == nil || x.noTypeInv {
+		return nil
+	}
+	ret, ok := decl.Body.List[0].(*ast.ReturnStmt)
+	if !ok {
+		return nil
+	}
+	env := &Env{x: x, vars: map[string]*SV{}, heap: st.heap, old: st.heap, info: info}
+	env.vars[decl.Type.Params.List[0].Names[0].Name] = TV(v)
+	return x.svTerm(env.eval(ret.Results[0]))
 }
